@@ -478,3 +478,207 @@ Proof.
     destruct S2 as [u2 [E2 [Hl2 Hst2]]]. rewrite E2. cbn [obind]. rewrite Hst2, Hl2.
     apply matrix_path; try assumption. right. exact Hd.
 Qed.
+
+(* ---------- to_sketch ---------- *)
+Lemma inv_set_merge : forall lg s M b, Inv lg s M -> Inv lg (set_merge s b) M.
+Proof.
+  intros lg s M b [[W Hb Hn] Hl Hrg Hoff Hwin Hfl Hfic Hnm].
+  constructor; try assumption. constructor; try assumption.
+  destruct W. constructor; assumption.
+Qed.
+
+Theorem union_to_sketch_ok : forall u lg M, Urep u lg M -> 8 * pop_rows M (Knat lg) < 475 * 2 ^ lg ->
+  exists s, union_to_sketch u = Ok s /\ Inv lg s M /\ (c_num s <> 0 -> c_merge s = true).
+Proof.
+  intros u lg M [Hl Hrg Hnm H64 Hst] Hdom. pose proof (pow_pos lg) as HK.
+  unfold union_to_sketch. rewrite Hl. destruct (u_st u) as [sk|m].
+  - destruct Hst as [I Hw]. pose proof (rep_num sk M (inv_rep lg sk M I)) as Hn. rewrite (inv_lgk lg sk M I) in Hn.
+    unfold cpc_is_empty. destruct (c_num sk =? 0) eqn:EC.
+    + destruct (new_inv lg Hrg) as [s0 [E0 I0]]. exists s0. split; [exact E0|].
+      assert (HB : mbelow (2 ^ lg) mzero M).
+      { intros r Hr. pose proof (pop_rows_zero_rows M (Knat lg) ltac:(lia) (N.to_nat r) ltac:(unfold Knat; lia)) as Z.
+        rewrite N2Nat.id in Z. rewrite Z. reflexivity. }
+      split; [apply (inv_ext lg s0 mzero M I0 HB)|].
+      pose proof (rep_num s0 mzero (inv_rep lg s0 mzero I0)) as Hn0. rewrite pop_rows_zero in Hn0. intros H. contradiction.
+    + destruct (flavor_facts lg sk M I) as [[_ H0]|[[Hf _]|[[_ [_ [Hx _]]]|[_ [_ [Hx _]]]]]]; try congruence; try lia.
+      rewrite Hf. change (SPARSE =? SPARSE) with true. cbn [negb]. eexists. split; [reflexivity|].
+      split; [apply inv_set_merge; exact I|]. intros _. reflexivity.
+  - destruct Hst as [Em Hd]. destruct (new_inv lg Hrg) as [s0 [E0 _]]. rewrite E0. cbn [obind].
+    rewrite Em, rows_of_length, Knat_N, N.eqb_refl. cbn [negb]. rewrite count_rows.
+    set (C := pop_rows M (Knat lg)) in *.
+    rewrite (dco_coff lg C Hdom).
+    pose proof (coff_le56 (2 ^ lg) C HK Hdom) as H56.
+    assert (HC : C <> 0) by lia.
+    set (m0 := rows_of M (Knat lg)).
+    assert (Hlen : length m0 = Knat lg) by apply rows_of_length.
+    assert (HmM : forall r, r < 2 ^ lg -> nthN m0 r 0 = M r) by (intros r Hr; apply nthN_rows_of; rewrite Knat_N; exact Hr).
+    assert (Hm64 : Forall word64 m0).
+    { apply Forall_forall. intros w Hw. unfold m0, rows_of in Hw. apply in_map_iff in Hw. destruct Hw as [i [<- Hi]].
+      apply in_seq in Hi. apply H64. rewrite <- Knat_N. lia. }
+    assert (Hmnm : forall r c, r < 2 ^ lg -> c < 64 -> N.testbit (nthN m0 r 0) c = true -> r * 64 + c <> U32MAX).
+    { intros r c Hr Hc Hb. rewrite (HmM r Hr) in Hb. apply (Hnm r c Hr Hc Hb). }
+    uconsts.
+    destruct (from_matrix_succeeds lg m0 (coff (2 ^ lg) C) Hlen H56 Hmnm) as [win [tab [fic Efm]]].
+    rewrite Efm. cbn [obind]. eexists. split; [reflexivity|].
+    destruct (from_matrix_state lg m0 (coff (2 ^ lg) C) C fic true (c_kxp s0) (c_hip s0) win tab fic
+                Hlen Hm64 H56 HC Hmnm Efm) as [W2 [Hw2 Hb2]].
+    assert (Hfic : fic = fm_fic (coff (2 ^ lg) C) (map (fm_pattern 255 (coff (2 ^ lg) C)) m0)).
+    { unfold from_matrix in Efm. destruct (memN U32MAX _); [discriminate|]. injection Efm as _ _ <-. reflexivity. }
+    destruct (fm_fic_ok lg m0 (coff (2 ^ lg) C) Hlen H56) as [F1 F2]. rewrite <- Hfic in F1, F2.
+    split; [|intros _; reflexivity].
+    constructor; proj; try assumption; try reflexivity.
+    + constructor; proj.
+      * exact W2.
+      * intros r c Hr Hc. rewrite Hb2 by assumption. rewrite (HmM r Hr). reflexivity.
+      * reflexivity.
+    + split; [intros _; exact Hd|intros _; exact Hw2].
+    + intros r c Hr Hc. rewrite <- (HmM r Hr). apply F2; assumption.
+Qed.
+
+(* ---------- sequences of inputs ---------- *)
+Fixpoint union_run (u : cpcu) (sks : list cpc) : outcome cpcu :=
+  match sks with
+  | [] => Ok u
+  | s :: r => obind (union_update u s) (fun u' => union_run u' r)
+  end.
+
+Definition dom (a : uinput) : Prop := 8 * pop_rows (snd a) (Knat (fst a)) < 475 * 2 ^ fst a.
+
+(* an in-domain result implies in-domain intermediate unions: folding cannot shrink C/K *)
+Lemma dom_step_back : forall a i, fst a <= 26 -> dom (uspec_step a i) -> dom a.
+Proof.
+  intros [lg M] [lgi Mi] _ H. unfold dom, uspec_step in *. destruct (in_empty (lgi, Mi)); [exact H|].
+  cbn [fst snd] in *. set (lg' := N.min lg lgi) in *.
+  assert (Hl : lg' <= lg) by (unfold lg'; lia).
+  pose proof (pop_fold' lg lg' M Hl) as P. pose proof (pop_rows_mor_l (mfold lg lg' M) (mfold lgi lg' Mi) (Knat lg')) as Q.
+  rewrite (pow_split lg lg' Hl). pose proof (pow_pos (lg - lg')) as HF. nia.
+Qed.
+
+Lemma dom_fold_back : forall ins a, fst a <= 26 -> dom (fold_left uspec_step ins a) -> dom a.
+Proof.
+  induction ins as [|i ins IH]; intros a H26 H; cbn [fold_left] in H; [exact H|].
+  apply (dom_step_back a i H26). apply IH; [|exact H].
+  unfold uspec_step. destruct (in_empty i); cbn [fst]; lia.
+Qed.
+
+Definition ins_of (l : list (cpc * N * matrix)) : list uinput := map (fun x => (snd (fst x), snd x)) l.
+
+Lemma union_run_ok : forall l u lg M,
+  Urep u lg M -> Forall (fun x => Vin (fst (fst x)) (snd (fst x)) (snd x)) l ->
+  dom (fold_left uspec_step (ins_of l) (lg, M)) ->
+  exists u', union_run u (map (fun x => fst (fst x)) l) = Ok u' /\
+             Urep u' (fst (fold_left uspec_step (ins_of l) (lg, M))) (snd (fold_left uspec_step (ins_of l) (lg, M))).
+Proof.
+  induction l as [|[[s lgi] Mi] l IH]; intros u lg M U HF Hdom; cbn [map union_run ins_of fold_left fst snd] in *.
+  - exists u. split; [reflexivity|exact U].
+  - inversion HF as [|? ? Hv HF']; subst. cbn [fst snd] in Hv.
+    fold (ins_of l) in *.
+    assert (D1 : dom (uspec_step (lg, M) (lgi, Mi))).
+    { apply (dom_fold_back (ins_of l)); [|exact Hdom]. pose proof (ur_range u lg M U).
+      unfold uspec_step. destruct (in_empty (lgi, Mi)); cbn [fst]; lia. }
+    destruct (union_update_ok u lg M s lgi Mi U Hv D1) as [u1 [E1 U1]].
+    rewrite E1. cbn [obind].
+    destruct (uspec_step (lg, M) (lgi, Mi)) as [lg1 M1] eqn:Es. cbn [fst snd] in *.
+    apply IH; assumption.
+Qed.
+
+(* ---------- what the invariant says about a sketch, in observable terms ---------- *)
+Lemma inv_facts : forall lg s M, Inv lg s M -> Mw64 lg M -> 8 * c_num s < 475 * 2 ^ lg ->
+  build_bit_matrix s = Ok (rows_of M (Knat lg)) /\
+  c_lgk s = lg /\
+  c_num s = pop_rows M (Knat lg) /\
+  c_off s = determine_correct_offset lg (c_num s) /\
+  c_off s <= 56 /\
+  (c_win s = [] <-> cpc_flavor s <= SPARSE) /\
+  fic_ok lg s M /\
+  cpc_validate s = Ok true.
+Proof.
+  intros lg s M I H64 Hd. pose proof (inv_lgk lg s M I) as Hl.
+  pose proof (build_rows s M (inv_rep lg s M I)) as Hb. rewrite Hl in Hb. specialize (Hb H64).
+  pose proof (rep_num s M (inv_rep lg s M I)) as Hn. rewrite Hl in Hn.
+  split; [exact Hb|]. split; [exact Hl|]. split; [exact Hn|].
+  split; [rewrite dco_coff by exact Hd; apply (inv_off lg s M I)|].
+  split; [rewrite (inv_off lg s M I); apply coff_le56; [apply pow_pos|exact Hd]|].
+  split.
+  { unfold cpc_flavor. rewrite Hl, flavor_sparse_iff. pose proof (inv_win lg s M I) as Hwin. unfold windowed in Hwin.
+    destruct (c_win s).
+    - split; [intros _|reflexivity]. destruct (N.lt_ge_cases (32 * c_num s) (3 * 2 ^ lg)) as [L|L]; [exact L|].
+      apply Hwin in L. discriminate.
+    - split; [discriminate|]. intros L. exfalso. assert (3 * 2 ^ lg <= 32 * c_num s) by (apply Hwin; reflexivity). lia. }
+  split; [split; [apply (inv_fic_le lg s M I)|apply (inv_fic lg s M I)]|].
+  unfold cpc_validate. rewrite Hb. cbn [obind]. f_equal. rewrite count_rows, Hn. apply N.eqb_refl.
+Qed.
+
+Lemma union_new_rep : forall lg0, 4 <= lg0 <= 26 -> exists u0, union_new lg0 = Ok u0 /\ Urep u0 lg0 mzero.
+Proof.
+  intros lg0 Hrg. unfold union_new. destruct (new_inv lg0 Hrg) as [s0 [E0 I0]]. rewrite E0. cbn [obind].
+  eexists. split; [reflexivity|]. constructor; cbn [u_lgk u_st]; [reflexivity|exact Hrg| | |].
+  - intros r c _ _ Hb. unfold mzero in Hb. rewrite N.bits_0 in Hb. discriminate.
+  - intros r _ c _. apply N.bits_0.
+  - split; [exact I0|]. apply (not_windowed lg0 s0 mzero I0).
+    pose proof (rep_num s0 mzero (inv_rep lg0 s0 mzero I0)) as Hn0. rewrite pop_rows_zero in Hn0. rewrite Hn0.
+    pose proof (pow_pos lg0). lia.
+Qed.
+
+(* every sketch reachable by updates is a valid union input *)
+Lemma cpc_run_vin : forall lgk cs s,
+  4 <= lgk <= 26 -> Forall (valid lgk) cs -> 8 * distinct cs < 475 * 2 ^ lgk ->
+  cpc_run lgk cs = Ok s -> Vin s lgk (spec cs).
+Proof.
+  intros lgk cs s Hrg HF Hd E. destruct (cpc_run_inv lgk cs Hrg HF Hd) as [s' [E' I]].
+  rewrite E in E'. injection E' as <-. split; [exact I|]. intros r _. apply Mwf_spec.
+Qed.
+
+Definition union_of (lg0 : N) (sks : list cpc) : outcome cpcu := obind (union_new lg0) (fun u0 => union_run u0 sks).
+
+(* C06: the union of any sequence of valid sketches represents the Spec, and its result sketch is a valid,
+   consistent sketch of exactly the Spec matrix *)
+Theorem cpc_union_refines : forall lg0 l,
+  4 <= lg0 <= 26 -> Forall (fun x => Vin (fst (fst x)) (snd (fst x)) (snd x)) l ->
+  dom (uspec lg0 (ins_of l)) ->
+  exists u, union_of lg0 (map (fun x => fst (fst x)) l) = Ok u /\
+    u_lgk u = fst (uspec lg0 (ins_of l)) /\
+    union_num_coupons u = pop_rows (snd (uspec lg0 (ins_of l))) (Knat (fst (uspec lg0 (ins_of l)))) /\
+    exists s, union_to_sketch u = Ok s /\
+      Vin s (fst (uspec lg0 (ins_of l))) (snd (uspec lg0 (ins_of l))) /\
+      build_bit_matrix s = Ok (rows_of (snd (uspec lg0 (ins_of l))) (Knat (fst (uspec lg0 (ins_of l))))) /\
+      c_lgk s = fst (uspec lg0 (ins_of l)) /\
+      c_num s = pop_rows (snd (uspec lg0 (ins_of l))) (Knat (fst (uspec lg0 (ins_of l)))) /\
+      c_off s = determine_correct_offset (fst (uspec lg0 (ins_of l))) (c_num s) /\
+      c_off s <= 56 /\
+      (c_win s = [] <-> cpc_flavor s <= SPARSE) /\
+      fic_ok (fst (uspec lg0 (ins_of l))) s (snd (uspec lg0 (ins_of l))) /\
+      cpc_validate s = Ok true /\
+      (c_num s <> 0 -> c_merge s = true).
+Proof.
+  intros lg0 l Hrg HF Hdom. unfold union_of.
+  destruct (union_new_rep lg0 Hrg) as [u0 [E0 U0]]. rewrite E0. cbn [obind].
+  unfold uspec in *.
+  destruct (union_run_ok l u0 lg0 mzero U0 HF Hdom) as [u [E U]].
+  set (a := fold_left uspec_step (ins_of l) (lg0, mzero)) in *.
+  exists u. split; [exact E|]. split; [apply (ur_lgk u _ _ U)|].
+  split.
+  { unfold union_num_coupons. pose proof (ur_st u _ _ U) as Hst. destruct (u_st u) as [sk|m].
+    - destruct Hst as [I _]. rewrite (rep_num sk _ (inv_rep _ sk _ I)), (inv_lgk _ sk _ I). reflexivity.
+    - destruct Hst as [-> _]. apply count_rows. }
+  destruct (union_to_sketch_ok u (fst a) (snd a) U Hdom) as [s [Es [I Hm]]].
+  exists s. split; [exact Es|].
+  pose proof (ur_w64 u _ _ U) as H64.
+  assert (Hd : 8 * c_num s < 475 * 2 ^ fst a).
+  { rewrite (rep_num s _ (inv_rep _ s _ I)), (inv_lgk _ s _ I). exact Hdom. }
+  destruct (inv_facts (fst a) s (snd a) I H64 Hd) as [F1 [F2 [F3 [F4 [F5 [F6 [F7 F8]]]]]]].
+  split; [split; assumption|]. repeat (split; [assumption|]). exact Hm.
+Qed.
+
+(* a union in the BitMatrix state is never in the sparse range (what makes to_sketch's window legitimate) *)
+Theorem union_bitmatrix_not_sparse : forall u lg M m, Urep u lg M -> u_st u = UMat m ->
+  3 * 2 ^ lg <= 32 * count_bits_set_in_matrix m.
+Proof.
+  intros u lg M m U E. pose proof (ur_st u lg M U) as Hst. rewrite E in Hst. destruct Hst as [-> Hd].
+  rewrite count_rows. exact Hd.
+Qed.
+
+(* the empty union's result is a fresh sketch whose merge flag is NOT set *)
+Lemma union_empty_result_not_merged :
+  exists u s, union_of 11 [] = Ok u /\ union_to_sketch u = Ok s /\ c_num s = 0 /\ c_merge s = false.
+Proof. eexists. eexists. split; [reflexivity|]. split; [reflexivity|]. split; reflexivity. Qed.
